@@ -3,6 +3,8 @@ package props
 import (
 	"verif/checker/internal/core"
 	"verif/checker/internal/engb"
+	"verif/checker/internal/fam"
+	"verif/checker/internal/gen"
 )
 
 func init() { Registry["C15"] = C15 }
@@ -26,4 +28,35 @@ func C15(c *core.Ctx) {
 	c.Floor("B-ROLE", r.Sites, 6, "role-checked call sites and flags")
 	emit(c, a.WritesThroughInput("pkg/codegen.getMinIntType"))
 	ruleSizedTable(c)
+	ruleSizedFamilies(c, []string{"required", "optional", "def-required"}, 30)
+}
+
+// ruleSizedFamilies: the whole generator under --min-sized-ints on integer properties with integral bounds in every form; in every world
+// (= cell of each bound between the type limits) each stated bound is either enforced by an emitted branch or implied by the range of the
+// Go type of the field, no unstated bound is enforced, and the type holds every admitted integer (A-SIZED).
+func ruleSizedFamilies(c *core.Ctx, poss []string, floor int) {
+	cfg := gen.DefaultConfig()
+	cfg.MinSizedInts = true
+	rules := ruleSet("A-SIZED", "A-REJ", "A-NOEXTRA", "A-NILG")
+	type form struct {
+		kws        []string
+		emin, emax string
+	}
+	forms := []form{
+		{[]string{"minimum"}, "", ""}, {[]string{"maximum"}, "", ""}, {[]string{"minimum", "maximum"}, "", ""},
+		{nil, "num", ""}, {nil, "", "num"}, {[]string{"maximum"}, "num", ""}, {[]string{"minimum"}, "", "num"},
+		{[]string{"minimum"}, "true", ""}, {[]string{"maximum"}, "", "true"}, {[]string{"minimum", "maximum"}, "true", ""}, {[]string{"minimum", "maximum"}, "", "true"},
+		{[]string{"minimum"}, "false", ""},
+	}
+	if c.Tier == "thorough" {
+		forms = append(forms, form{nil, "num", "num"}, form{[]string{"minimum", "maximum"}, "true", "true"}, form{[]string{"minimum"}, "num", ""}, form{[]string{"maximum"}, "", "num"})
+	}
+	for _, pos := range poss {
+		for _, f := range forms {
+			sp := &fam.Spec{Kind: "integer", Kw: f.kws, EMin: f.emin, EMax: f.emax, IntBounds: true}
+			mb := member{name: "sized integer " + pos + " " + sp.String(), cfg: cfg, root: place(sp, pos)}
+			runMemberOpt(c, mb, rules, 4000, true, checkRoot)
+		}
+	}
+	c.Floor("sized families", c.Counts["members"], floor, "sized-integer family members")
 }
